@@ -160,6 +160,16 @@ CHECKS = {
             '(target, spec, scope) triples from eight other generators, identity-preserving deep snapshots of target, spec object graph and caller scope before/after two evaluations.',
             'Configuration = (PATH_STAR, set of registrations); histories deeper than the bound and the free-running GC are out of reach.',
             '3/C06'),
+    'C20': ('model_checking',
+            'systematic schedule exploration of real threads under a cooperative scheduler (all interleavings at user-callable granularity; preemption-bounded at source-line granularity via sys.settrace), every execution on the real library in a pristine forked process',
+            'Nine colliding pool calls (same path text with a cold path cache, one shared spec object with argument-mode containers / Coalesce default / Fill / Group, the same user type '
+            'with a cold registry memo, scope bindings with mode switches, failing calls whose trace is the outcome). Callables: ALL interleavings of every pair (thorough: selected triples) '
+            'with yield points inside instrumented callables. Lines: a scheduling point at every line event of glom/*.py, preemption bound 1 - thread A preempted at (every 2nd; thorough: every) '
+            'point, B runs to completion, A resumes, both orders. Hot-lines: preemption bound 2 over the lines of the functions touching process-wide state. Thorough adds bound 2 at '
+            'function-entry granularity. Re-entrancy: every chain of <= 3 pool calls nested through a callable, inner failures caught or propagating. Oracle: each call equals its isolated '
+            'outcome (value, or error class + scrubbed trace); isolated runs are replayed twice to prove determinism.',
+            'Switches inside one source line and C-level races are not explored; free-running threads are a non-deciding smoke pass.',
+            '3/C20'),
 }
 
 NOT_YET = {}
